@@ -99,6 +99,20 @@ fn run_ops<T: Sc>(t: &mut Toks, cx: &mut Ctx, mut s: Sparse<T>, mut m: Map<T>, d
                 match &r { Ok(_) => cx.check(i < rr && j < cc, "get accepted an out-of-range position"), Err(_) => cx.check(!(i < rr && j < cc), "get rejected an in-range position") }
                 cx.check(dump(&s) == before, "get modified the matrix");
                 r.map(|g| match g { Some(v) => format!("some {}", v.wr()), None => "none".into() }) }
+            "prod" => { // read-only view: A x and A^T y of the CURRENT state against the reference map
+                let x: Vector<T> = rd_vector(t); let y: Vector<T> = rd_vector(t);
+                let ax = guarded(|| s.multiply(&x)); let aty = guarded(|| s.transpose_multiply(&y));
+                cx.check(dump(&s) == before, "a product (&self) modified the matrix");
+                if dupfree && T::is_exact() {
+                    match &ax { Ok(v) => { cx.check(x.size() == cc, "multiply accepted a vector of the wrong length");
+                            if x.size() == cc { let mut e = vec![T::zero(); rr]; for ((i, j), a) in &m { e[*i] += *a * x[*j]; } cx.check(same_vec(&v.vec, &e), "after the history: A x differs from the product with the reference matrix"); } }
+                        Err(c) => cx.check(x.size() != cc, &format!("multiply panicked ({}) after a valid history", c)) }
+                    match &aty { Ok(v) => { cx.check(y.size() == rr, "transpose_multiply accepted a vector of the wrong length");
+                            if y.size() == rr { let mut e = vec![T::zero(); cc]; for ((i, j), a) in &m { e[*j] += *a * y[*i]; } cx.check(same_vec(&v.vec, &e), "after the history: A^T y differs from the product with the reference matrix"); } }
+                        Err(c) => cx.check(y.size() != rr, &format!("transpose_multiply panicked ({}) after a valid history", c)) }
+                }
+                let w = |r: &Result<Vector<T>, &'static str>| match r { Ok(v) => wr_vector(v), Err(c) => format!("!{}", c) };
+                Ok(format!("{} / {}", w(&ax), w(&aty))) }
             _ => panic!("HARNESS: unknown sparse op {}", op),
         };
         out.push_str(&match &r { Ok(z) if z.is_empty() => "ok".to_string(), Ok(z) => format!("ok {}", z), Err(c) => format!("!{}", c) });
@@ -341,7 +355,33 @@ fn gen_ops_overwrite<T: Sc>(rng: &mut Rng, rows: usize, cols: usize, pos: &[(usi
     s
 }
 
+/// histories of edits in which products are taken after every few edits (C07 on matrices that HAVE a history)
+fn gen_hist_prod(rng: &mut Rng, out: &mut Vec<String>, count: usize) {
+    for _ in 0..count {
+        let (mut rows, mut cols) = (1 + rng.below(6), 1 + rng.below(6));
+        let dens0 = *rng.pick(&[20usize, 50, 80]);
+        let (r0, c0) = (rows, cols);
+        let v = gen_pattern::<Q>(rng, rows, cols, dens0);
+        let mut ops = String::new(); let mut n = 0;
+        let mut prod = |rng: &mut Rng, rows: usize, cols: usize, ops: &mut String, n: &mut usize| { ops.push_str(&format!(" prod {} {}", gen_vec_str::<Q>(rng, cols, 10, 0), gen_vec_str::<Q>(rng, rows, 10, 0))); *n += 1; };
+        for _ in 0..2 + rng.below(5) {
+            match rng.below(5) {
+                0 | 1 => { // new entries, biased to the LAST and first column / row
+                    let j = match rng.below(3) { 0 => cols - 1, 1 => 0, _ => rng.below(cols) }; let i = match rng.below(3) { 0 => rows - 1, 1 => 0, _ => rng.below(rows) };
+                    ops.push_str(&format!(" insert {} {} {}", i, j, Q::gen(rng, 0, 0).wr())); n += 1; }
+                2 => { ops.push_str(&format!(" scale {}", Q::gen(rng, 0, 0).wr())); n += 1; }
+                3 => { ops.push_str(" transpose"); n += 1; std::mem::swap(&mut rows, &mut cols); }
+                _ => { ops.push_str(&format!(" get {} {}", rng.below(rows), rng.below(cols))); n += 1; }
+            }
+            if rng.chance(60) { prod(rng, rows, cols, &mut ops, &mut n); }
+        }
+        prod(rng, rows, cols, &mut ops, &mut n);
+        out.push(format!("sp_hist q {} {} {} {}{}", r0, c0, trips_str(&v), n, ops));
+    }
+}
+
 pub fn gen_c07(rng: &mut Rng, tier: Tier, out: &mut Vec<String>) {
+    gen_hist_prod(rng, out, if tier == Tier::Quick { 150 } else { 3000 });
     let n = if tier == Tier::Quick { 1000 } else { 20000 };
     for i in 0..n {
         let (rows, cols) = (rng.below(11), rng.below(11));
